@@ -185,9 +185,9 @@ pub enum ParameterId {
     InitialMaxStreamDataBidiRemote = 0x0006,
     #[param(value_type = VarInt, default = 0u32)]
     InitialMaxStreamDataUni = 0x0007,
-    #[param(value_type = VarInt, default = 0u32)]
+    #[param(value_type = VarInt, default = 0u32, bound = 0..=crate::sid::MAX_STREAMS_LIMIT)]
     InitialMaxStreamsBidi = 0x0008,
-    #[param(value_type = VarInt, default = 0u32)]
+    #[param(value_type = VarInt, default = 0u32, bound = 0..=crate::sid::MAX_STREAMS_LIMIT)]
     InitialMaxStreamsUni = 0x0009,
     #[param(value_type = VarInt, default = 3u32, bound = 0..=20)]
     AckDelayExponent = 0x000a,
